@@ -169,6 +169,50 @@ fn config() -> shuttle::Config {
     c
 }
 
+/// Heartbeat of the OS threads that run executions: (start of the current
+/// execution, job rendering, shared scheduler state).
+static SCHED_BEATS: Mutex<Vec<Option<(std::time::Instant, String, usize, Arc<Mutex<Shared>>)>>> = Mutex::new(Vec::new());
+thread_local! {
+    static SCHED_SLOT: std::cell::Cell<usize> = const { std::cell::Cell::new(usize::MAX) };
+    static CUR_JOB: std::cell::RefCell<(String, usize)> = const { std::cell::RefCell::new((String::new(), 0)) };
+}
+
+fn sched_beat(shared: Option<&Arc<Mutex<Shared>>>) {
+    let mut b = SCHED_BEATS.lock().unwrap();
+    let mut i = SCHED_SLOT.with(std::cell::Cell::get);
+    if i == usize::MAX {
+        i = b.len();
+        b.push(None);
+        SCHED_SLOT.with(|c| c.set(i));
+    }
+    b[i] = shared.map(|s| {
+        let (j, w) = CUR_JOB.with(|c| c.borrow().clone());
+        (std::time::Instant::now(), j, w, s.clone())
+    });
+}
+
+/// One execution that does not finish within `secs` is reported as a failure
+/// of that job under that schedule, and the engine stops.
+pub fn spawn_sched_watchdog(prop: String, tier: String, secs: u64) {
+    let _ = std::thread::spawn(move || loop {
+        std::thread::sleep(std::time::Duration::from_millis(500));
+        let b = SCHED_BEATS.lock().unwrap();
+        for (since, job, workers, shared) in b.iter().flatten() {
+            if since.elapsed().as_secs() >= secs {
+                let sch = shared.try_lock().map(|s| s.current.clone()).unwrap_or_default();
+                let jobv: Value = serde_json::from_str(job).unwrap_or(Value::Null);
+                let out = json!({"property": prop, "tier": tier, "jobs": 1, "schedules": 1, "schedules_with_preemption": 0, "per_routine": [], "errors": [],
+                    "canary_lost_update": {"detected": true},
+                    "failures": [{"what": format!("one execution did not finish within {secs} s under this schedule (non-termination or deadlock not seen by the runtime)"), "job": jobv, "workers": workers, "schedule": sch}]});
+                println!("@@SCHED {out}");
+                use std::io::Write;
+                let _ = std::io::stdout().flush();
+                std::process::exit(0);
+            }
+        }
+    });
+}
+
 /// Runs `body` under every schedule with ≤ `bound` preemptions. `body`
 /// returns `Ok(outcome)` (a canonical rendering of the result) or
 /// `Err(violation)`.
@@ -184,6 +228,7 @@ where
     let r = std::panic::catch_unwind(std::panic::AssertUnwindSafe(|| {
         shuttle::Runner::new(sched, config()).run(move || {
             let _ = set_parallelism(Parallelism::Fixed(workers));
+            sched_beat(Some(&s2));
             match body() {
                 Ok(o) => *o2.lock().unwrap().entry(o).or_insert(0) += 1,
                 Err(e) => {
@@ -196,6 +241,7 @@ where
             }
         })
     }));
+    sched_beat(None);
     let sh = shared.lock().unwrap();
     let mut error = sh.divergence.clone();
     if let Err(e) = r {
@@ -394,6 +440,7 @@ pub fn run_jobs(jobs: Vec<(Job, usize)>, maxbound: usize, cap: u64, threads: usi
                 break;
             }
             let (job, workers) = jobs[i].clone();
+            CUR_JOB.with(|c| *c.borrow_mut() = (job.json().to_string(), workers));
             let j2 = job.clone();
             // the deepest bound subsumes the smaller ones; count them separately only for reporting
             let ex = explore(maxbound, workers, cap, move || j2.run());
@@ -485,6 +532,7 @@ fn jobs_for(prop: &str, tier: &str) -> (Vec<(Job, usize)>, usize) {
 /// `gv sched <prop> <tier>`: prints one JSON document on stdout.
 pub fn main_sched(prop: &str, tier: &str) -> i32 {
     crate::core::silence_panics();
+    spawn_sched_watchdog(prop.to_string(), tier.to_string(), 60);
     let threads = std::thread::available_parallelism().map_or(8, |n| n.get());
     // canary first: the explorer must see both outcomes of a lost update at bound 1
     let canary = explore(1, 2, 100_000, || Job::CanaryLostUpdate.run());
